@@ -5,9 +5,36 @@
     (field-wise compare through the probe).
 (b) the full product of a structural alphabet of modules built directly through the nvm_*
     API: deserialize(serialize(m)) == m field-by-field, serialize idempotent.
+(c) SIZE BOUNDARIES of the container, two ways:
+    (c1) modules built through the nvm_* API (vf/probes/c10_probe.c `sizes`): every table - pooled strings,
+         one long string, functions, code bytes, imports, parameters of one import, debug entries - swept
+         over {0} u {2^k-1, 2^k, 2^k+1} up to a per-table bound (quick: 8193 strings, 2^20 string bytes,
+         65537 functions / imports / debug entries, 4 MiB code; thorough: 65537 strings, 16 MiB string,
+         2^20 functions / debug entries, 2^18 imports, 64 MiB code) with the other tables at two base
+         settings, plus the full product of a reduced list ({0,1,513,4097}; thorough {0,1,2,257,513,1025,
+         4097}) over strings x functions x imports x debug x {0, 65537} code bytes x {no, one 65536-byte}
+         long string.  Oracle: what was built is what was asked, deserialize(serialize(m)) == m field by
+         field from an exact-size buffer, serialize idempotent.
+    (c2) programs GENERATED so that the module the real compiler emits has a table size on / around a
+         power of two: function-table entries (1..513/514: the compiler stops at 512 user functions, the
+         synthetic __init__ and main come on top) in five shapes, pooled strings 2^k-1, 2^k, 2^k+1 for
+         k <= 13 (thorough: k <= 16, i.e. 65535..65537), one literal of 0,1,255..257,65535..65537 bytes
+         (thorough: 2^20), code bytes / entry offset / loop body across 2^15, 2^16, 2^17 (thorough: 2^20)
+         hit exactly through a calibrated mix of a 16-byte and a 7-byte statement, 1..300 imports.  The
+         achieved sizes are read back from the emitted file (probe `info`).  Oracle: as (a) - three ways
+         of running agree on stdout, exit status and stderr class, and the file round-trips.
+(d) EXIT STATUS AND OUTPUT AFTER A RUNTIME ERROR: the full product  error kind (failed assert, at /
+    array_set / array_remove_at out of range, array_pop of an empty array, call depth, unresolvable extern,
+    and a control that does not fail) x place (main, callee, callee of callee, loop in main, loop in callee,
+    second call of the same function, global initialiser) x what the frame holds when it happens (last local
+    an int 0, 1, 7, 255, 256, -1; a string; a bool; nothing declared; a pending int operand 0 / 7 / 256 of
+    an unfinished addition) x output before it (none, a line, an unterminated line, 90 KB).  Oracle: the
+    three ways agree on stdout bytes, exit status and stderr class (no runtime error / runtime error with
+    the VM's message / module refused).
 """
 import glob
 import os
+import threading
 
 from .. import common, corpus
 
@@ -28,52 +55,468 @@ def gen_many(path, nfun=40, nstr=100):
     return path
 
 
+# ===================================================================== (c2) generated size-boundary programs
+TAIL = "shadow main { assert true }\n"
+
+
+def pow2_around(lo_k, hi_k):
+    out = []
+    for k in range(lo_k, hi_k + 1):
+        for d in (-1, 0, 1):
+            v = (1 << k) + d
+            if v >= 1 and v not in out:
+                out.append(v)
+    return out
+
+
+FN_SHAPES = ("plain", "mainfirst", "glob")     # a program without main is refused by the type checker
+
+
+def gen_functions(nuser, shape):
+    """nuser `fn` definitions (main and the global's initialiser included when the shape has them); helpers h0..
+    are called at the first, middle and last table positions, so a wrong index -> entry mapping changes the
+    output.  None when the shape needs more definitions than nuser."""
+    has_main = True
+    has_glob = shape == "glob"
+    nh = nuser - (1 if has_main else 0) - (1 if has_glob else 0)
+    if nh < 0:
+        return None
+    helpers = "".join("fn h%d(x: int) -> int { return (+ x %d) }\nshadow h%d { assert (== (h%d 0) %d) }\n" % (i, i + 1, i, i, i + 1)
+                      for i in range(nh))
+    glob_ = ""
+    if has_glob:
+        # the initialiser runs in __init__ and prints, so shapes without main still have output
+        glob_ = ("fn ginit(x: int) -> int {\n    (println \"init\")\n    (println x)\n    return (* x 2)\n}\nshadow ginit { assert true }\n"
+                 "let base: int = (ginit %d)\n" % (nh + 5))
+    main = ["fn main() -> int {\n    let mut t: int = 3\n"]
+    if has_glob:
+        main.append("    set t (+ t base)\n")
+    for i in sorted(set(i for i in (0, 1, nh // 2, nh - 2, nh - 1) if 0 <= i < nh)):
+        main.append("    set t (+ (* t 3) (h%d t))\n    (println t)\n" % i)
+    main.append('    (println "done")\n    return (% t 251)\n}\n' + TAIL)
+    main = "".join(main)
+    if shape == "mainfirst":
+        return main + helpers
+    return glob_ + helpers + (main if has_main else "")
+
+
+def gen_nested(total, shape="plain"):
+    """More table entries than the compiler's 512 top-level functions: 512 (or 511 + the global's initialiser)
+    top-level definitions and total-512 NESTED functions, at most 200 per hosting helper (a nested function
+    is a local of its host); every host calls its first and last nested function and prints the results."""
+    top = 512
+    extra = total - top - (1 if shape == "glob" else 0)      # __init__ is one more entry
+    txt = gen_functions(top, shape)
+    if extra <= 0:
+        return txt
+    host = 0
+    calls = []
+    while extra > 0:
+        n = min(200, extra)
+        old = "fn h%d(x: int) -> int { return (+ x %d) }\n" % (host, host + 1)
+        if old not in txt:
+            raise common.HarnessError("gen_nested: no helper %d to host nested functions" % host)
+        body = "".join("    fn n%d_%d(y: int) -> int { return (+ (* y 2) %d) }\n" % (host, i, i) for i in range(n))
+        body += "    (println (n%d_0 x))\n    (println (n%d_%d x))\n" % (host, host, n - 1)
+        txt = txt.replace(old, "fn h%d(x: int) -> int {\n%s    return (+ x %d)\n}\n" % (host, body, host + 1))
+        calls.append("    (println (h%d 4))\n" % host)
+        extra -= n
+        host += 1
+    return txt.replace('    (println "done")\n', "".join(calls) + '    (println "done")\n')
+
+
+def gen_strings(k):
+    """k distinct string literals; prints a checksum over all of them and the first / middle / last two,
+    so a wrong index -> content mapping at the boundary changes the output."""
+    out = ["fn main() -> int {\n    let mut n: int = 0\n"]
+    for i in range(k):
+        out.append('    set n (+ n (str_length "q%d%s"))\n' % (i, "_" * (i % 3)))
+    for i in sorted(set(x for x in (0, k // 2, k - 2, k - 1) if 0 <= x < k)):
+        out.append('    (println "q%d%s")\n' % (i, "_" * (i % 3)))
+    out.append("    (println n)\n    return (% n 200)\n}\n" + TAIL)
+    return "".join(out)
+
+
+def gen_longstring(L):
+    s = "".join(chr(97 + (i * 7 + (i >> 8)) % 26) for i in range(L))
+    return ('fn main() -> int {\n    let s: string = "%s"\n    (println (str_length s))\n    (println s)\n    (println "end")\n'
+            '    return (%% (str_length s) 199)\n}\n' % s) + TAIL
+
+
+STMT_A = "    set t (+ t 1)\n"        # 16 code bytes on the unchanged tree
+STMT_B = "    set b (not b)\n"        # 7 code bytes
+
+
+def gen_code(shape, k, j):
+    """k statements A and j statements B in: the body of main (`bigmain`), a function compiled before main so
+    that main's code offset moves (`split`), the body of a two-iteration loop (`loop`)."""
+    body = STMT_A * k + STMT_B * j
+    if shape == "bigmain":
+        return ("fn main() -> int {\n    let mut t: int = 3\n    let mut b: bool = true\n" + body +
+                "    if b { (println t) } else { (println (- 0 t)) }\n    return (% t 251)\n}\n" + TAIL)
+    if shape == "split":
+        return ("fn pad(x: int) -> int {\n    let mut t: int = x\n    let mut b: bool = true\n" + body +
+                "    if b { return t } else { return (- 0 t) }\n}\nshadow pad { assert true }\n"
+                "fn main() -> int {\n    let r: int = (pad 3)\n    (println r)\n    (println \"after pad\")\n    return (% (+ r 1000000) 251)\n}\n" + TAIL)
+    if shape == "loop":
+        return ("fn main() -> int {\n    let mut t: int = 3\n    let mut b: bool = true\n    let mut i: int = 0\n    while (< i 2) {\n" + body +
+                "        set i (+ i 1)\n    }\n    if b { (println t) } else { (println (- 0 t)) }\n    return (% t 251)\n}\n" + TAIL)
+    raise common.HarnessError(shape)
+
+
+def gen_imports(n, callpos):
+    """n extern declarations; exactly one (libm's sqrt) is called and sits first or last in the import table."""
+    decl = []
+    for i in range(n - 1):
+        decl.append("extern fn zz_ext_%d(%s) -> int\n" % (i, ", ".join("p%d: int" % q for q in range(i % 5))))
+    sq = "extern fn sqrt(x: float) -> float\n"
+    decl = [sq] + decl if callpos == "first" else decl + [sq]
+    return "".join(decl) + 'fn main() -> int {\n    (println (sqrt 16.0))\n    (println "imports")\n    return 5\n}\n' + TAIL
+
+
+# ===================================================================== (d) runtime-error programs
+TRAP_KINDS = {
+    # name: (top-level declarations, set-up statements, trapping form, is it an int expression)
+    "assert":  ("", "", "assert (== tv 99)", False),
+    "at":      ("", "let xs: array<int> = [1, 2]\n", "(at xs 9)", True),
+    "aset":    ("", "let mut xs: array<int> = [1, 2]\n", "(array_set xs 9 1)", False),
+    "aremove": ("", "let mut xs: array<int> = [1, 2]\n", "(array_remove_at xs 9)", False),
+    "pop":     ("", "let mut xs: array<int> = []\n", "(array_pop xs)", True),
+    "depth":   ("fn down(n: int) -> int {\n    if (== n 0) { return 0 } else {}\n    return (+ 1 (down (- n 1)))\n}\nshadow down { assert true }\n",
+                "", "(down 100000)", True),
+    "ffi":     ("extern fn zz_no_such_function(x: int) -> int\n", "", "(zz_no_such_function 3)", True),
+    "control": ("", "let xs: array<int> = [1, 2]\n", "(at xs 1)", True),
+}
+TRAP_WHERE = ("main", "callee", "callee2", "loop", "loop_callee", "second_call", "init")
+TRAP_OUT = ("none", "line", "partial", "big")
+STACK_LOCAL = {"i0": "let last: int = 0\n", "i1": "let last: int = 1\n", "i7": "let last: int = 7\n", "i255": "let last: int = 255\n",
+               "i256": "let last: int = 256\n", "im1": "let last: int = (- 0 1)\n", "str": 'let last: string = "tail"\n',
+               "bool": "let last: bool = true\n", "none": ""}
+STACK_PENDING = {"p0": 0, "p7": 7, "p256": 256}
+
+
+def trap_alphabet(tier):
+    if tier == "quick":
+        return (sorted(TRAP_KINDS), ("main", "callee2", "loop", "second_call", "init"),
+                ("i0", "i7", "i256", "im1", "str", "none", "p0", "p7"), ("line", "partial"))
+    return (sorted(TRAP_KINDS), TRAP_WHERE, tuple(STACK_LOCAL) + tuple(STACK_PENDING), TRAP_OUT)
+
+
+def gen_trap(kind, where, stack, out):
+    """None when the combination does not exist (a pending operand needs an expression form)."""
+    decls, setup, form, is_expr = TRAP_KINDS[kind]
+    if stack in STACK_PENDING:
+        if not is_expr:
+            return None
+        # the string local keeps the slot below the pending operand from being an int
+        body = setup + 'let last: string = "tail"\n' + "let w: int = (+ %d %s)\n(println w)\n" % (STACK_PENDING[stack], form)
+    else:
+        body = setup + STACK_LOCAL[stack] + (("let w: int = %s\n(println w)\n" % form) if is_expr else (form + "\n"))
+    body = "let tv: int = 5\n" + body + '(println "after")\n'
+    outs = {"none": "", "line": '(println "before the error")\n', "partial": '(println "first")\n(print "unterminated ")\n',
+            "big": 'let mut oi: int = 0\nwhile (< oi 3000) {\n    (println "0123456789abcdefghijklmnopqrs")\n    set oi (+ oi 1)\n}\n'}[out]
+    body = outs + body
+
+    def ind(txt, n):
+        return "".join(" " * n + l + "\n" for l in txt.splitlines())
+
+    def fn(name, inner, ret="return (+ a 1)"):
+        return "fn %s(a: int) -> int {\n%s    %s\n}\nshadow %s { assert true }\n" % (name, inner, ret, name)
+    loop = lambda inner: ("    let mut li: int = 0\n    while (< li 5) {\n        if (== li 3) {\n" + ind(inner, 12) +
+                          "        } else {}\n        set li (+ li 1)\n    }\n")
+    main_tail = '    (println "main ends")\n    return 7\n}\n' + TAIL
+    if where == "main":
+        prog = "fn main() -> int {\n" + ind(body, 4) + main_tail
+    elif where == "loop":
+        prog = "fn main() -> int {\n" + loop(body) + main_tail
+    elif where == "callee":
+        prog = fn("f1", ind(body, 4)) + 'fn main() -> int {\n    (println "main starts")\n    let r: int = (f1 5)\n    (println r)\n' + main_tail
+    elif where == "loop_callee":
+        prog = fn("f1", loop(body)) + 'fn main() -> int {\n    (println "main starts")\n    let r: int = (f1 5)\n    (println r)\n' + main_tail
+    elif where == "callee2":
+        prog = (fn("f2", ind(body, 4)) + fn("f1", '    let mid: int = (f2 (+ a 1))\n    (println mid)\n', "return (+ mid 1)") +
+                'fn main() -> int {\n    (println "main starts")\n    let r: int = (f1 5)\n    (println r)\n' + main_tail)
+    elif where == "second_call":
+        prog = (fn("f1", "    if (== a 2) {\n" + ind(body, 8) + "    } else {}\n") +
+                'fn main() -> int {\n    (println (f1 1))\n    (println (f1 2))\n' + main_tail)
+    elif where == "init":
+        prog = fn("f1", ind(body, 4)) + "let G: int = (f1 5)\n" + "fn main() -> int {\n    (println G)\n" + main_tail
+    else:
+        raise common.HarnessError(where)
+    return decls + prog
+
+
+# ===================================================================== observation
 def _observe(args):
-    tree_root, vm_exe, virt_exe, src, workdir = args
+    tree_root, vm_exe, virt_exe, src, workdir = args[:5]
+    tmul = args[5] if len(args) > 5 else 1
     base = os.path.join(workdir, os.path.basename(src)[:-5])
     res = {"src": src}
-    res["run"] = common.run([virt_exe, src, "--run"], timeout=60, cwd=tree_root)
-    rc, o, e = common.run([virt_exe, src, "--emit-nvm", "-o", base + ".nvm"], timeout=60, cwd=tree_root)
+    res["run"] = common.run([virt_exe, src, "--run"], timeout=60 * tmul, cwd=tree_root)
+    rc, o, e = common.run([virt_exe, src, "--emit-nvm", "-o", base + ".nvm"], timeout=60 * tmul, cwd=tree_root)
     res["emit"] = (rc, o, e)
     if rc == 0:
-        res["file"] = common.run([vm_exe, base + ".nvm"], timeout=60, cwd=tree_root)
-    rc, o, e = common.run([virt_exe, src, "-o", base + ".w"], timeout=180, cwd=tree_root)
+        res["file"] = common.run([vm_exe, base + ".nvm"], timeout=60 * tmul, cwd=tree_root)
+    rc, o, e = common.run([virt_exe, src, "-o", base + ".w"], timeout=180 * tmul, cwd=tree_root)
     res["wrapbuild"] = (rc, o, e)
     if rc == 0 and os.path.exists(base + ".w"):
-        res["wrap"] = common.run([base + ".w"], timeout=60, cwd=tree_root)
+        res["wrap"] = common.run([base + ".w"], timeout=60 * tmul, cwd=tree_root)
+        os.unlink(base + ".w")
     res["nvm"] = base + ".nvm"
     return res
 
 
+def err_class(stderr):
+    """stderr class: ('none',) / ('runtime error', message of the VM) / ('module refused',).
+    nano_virt --run and the wrapper print `runtime error: <message>`; nano_vm prints `Runtime error: <kind>`
+    and the message on the next line.  Anything else on stderr (compiler warnings of --run) is not compared."""
+    lines = [l.strip() for l in stderr.decode(errors="replace").splitlines() if l.strip()]
+    for i, l in enumerate(lines):
+        low = l.lower()
+        if low.startswith("runtime error:"):
+            msg = l[len("runtime error:"):].strip()
+            if l.startswith("Runtime error:") and i + 1 < len(lines):
+                msg = lines[i + 1]
+            return ("runtime error", msg)
+        if "invalid .nvm" in low or "failed to deserialize" in low or "cannot load" in low:
+            return ("module refused",)
+    return ("none",)
+
+
+def three_ways(r):
+    """name -> (exit status mod 256, stdout bytes, stderr class) for the three ways of running one program"""
+    obs = {"--run": r["run"], "nano_vm file": r["file"]}
+    if "wrap" in r:
+        obs["wrapper"] = r["wrap"]
+    else:
+        obs["wrapper"] = ("wrapper build failed rc=%s" % r["wrapbuild"][0], r["wrapbuild"][2][-300:], b"")
+    norm = {}
+    for k, v in obs.items():
+        rc = (v[0] % 256) if isinstance(v[0], int) and v[0] >= 0 else v[0]
+        norm[k] = (rc, v[1], err_class(v[2]) if isinstance(v[2], bytes) else ("none",))
+    return norm
+
+
+def describe(norm):
+    return "".join("%s: exit=%s stderr-class=%s stdout(%d bytes)=%r\n" % (k, v[0], "/".join(v[2]), len(v[1]), v[1][:1500]) for k, v in norm.items())
+
+
+def disagreement(norm):
+    """'' when the three agree, else a signature: which way deviates from --run in which observable"""
+    ref = norm["--run"]
+    sig = []
+    for k in ("nano_vm file", "wrapper"):
+        v = norm[k]
+        what = [n for n, a, b in (("exit", ref[0], v[0]), ("stdout", ref[1], v[1]), ("stderr-class", ref[2], v[2])) if a != b]
+        if what:
+            sig.append("%s differs in %s" % (k, "+".join(what)))
+    return "; ".join(sig)
+
+
+REPLAY_SH = ("# build /repo; then compare stdout, exit status and the error message of:\n"
+             "#   bin/nano_virt program.nano --run\n#   bin/nano_virt program.nano --emit-nvm -o p.nvm && bin/nano_vm p.nvm\n"
+             "#   bin/nano_virt program.nano -o w && ./w\ncd /verif && ./check C10 --replay \"$(dirname \"$0\")\"")
+
+
+def run_generated(rep, plain, work, family, progs, tmul=1):
+    """progs: list of (name, text, meta).  Writes them, observes them three ways in parallel, re-observes every
+    disagreement / timeout alone, reports violations grouped by signature.  Returns list of result dicts."""
+    d = os.path.join(work, family)
+    os.makedirs(d, exist_ok=True)
+    jobs = []
+    for name, text, _m in progs:
+        p = os.path.join(d, name + ".nano")
+        with open(p, "w") as f:
+            f.write(text)
+        jobs.append((plain.root, plain.exe("nano_vm"), plain.exe("nano_virt"), p, d, tmul))
+    results = common.pmap(_observe, jobs)
+    groups = {}
+    out = []
+    for (name, text, meta), job, r in zip(progs, jobs, results):
+        r["name"], r["meta"], r["text"] = name, meta, text
+        if r["emit"][0] != 0 or "file" not in r:
+            r["refused"] = True
+            rep.count("generated_programs_refused_by_front_end")
+            out.append(r)
+            continue
+        norm = three_ways(r)
+        timed_out = any(v[0] == "timeout" for v in norm.values()) or r["wrapbuild"][0] == "timeout"
+        sig = disagreement(norm)
+        if sig or timed_out:
+            # alone, with ten times the limits; a verdict needs the same disagreement twice in a row
+            again = []
+            for _ in range(2):
+                r2 = _observe(job[:5] + (tmul * 10,))
+                if r2["emit"][0] != 0 or "file" not in r2:
+                    raise common.HarnessError("%s compiled in the pool and not alone: %s" % (name, r2["emit"][2][-300:]))
+                again.append(disagreement(three_ways(r2)))
+                norm2 = three_ways(r2)
+            if again[0] != again[1]:
+                raise common.HarnessError("%s: unstable observation: %r then %r then %r" % (name, sig, again[0], again[1]))
+            sig, norm = again[1], norm2
+            r.update({k: r2[k] for k in ("run", "file", "wrap", "wrapbuild") if k in r2})
+            if not sig:
+                rep.count("disagreements_not_reproduced_alone")
+        r["norm"] = norm
+        rep.count("traces_validated_against_impl", len(norm))
+        rep.count("transitions", len(norm))
+        if sig:
+            groups.setdefault(sig, []).append((name, text, norm))
+        out.append(r)
+    for sig, members in sorted(groups.items()):
+        files = {"members.txt": "".join("%s\n" % m[0] for m in members)}
+        name, text, norm = members[0]
+        files["program.nano"] = text
+        files["observations.txt"] = describe(norm)
+        for name2, text2, norm2 in members[1:4]:
+            files["more_%s.nano" % name2] = text2
+            files["more_%s.observations.txt" % name2] = describe(norm2)
+        rep.violation("c10-%s:%s" % (family, sig), files,
+                      "%s: %d generated program(s), e.g. %s: %s  %s" % (family, len(members), name, sig,
+                                                                          {k: (v[0], "/".join(v[2])) for k, v in norm.items()}), REPLAY_SH)
+    return out
+
+
+def replay(path):
+    """Re-run the program of one stored violation against a fresh build of the tree."""
+    p = os.path.join(path, "program.nano")
+    if not os.path.exists(p):
+        print("nothing to replay in", path)
+        return 2
+    plain = common.build_tree("plain")
+    work = os.path.join(common.scratch(), "c10r")
+    os.makedirs(work, exist_ok=True)
+    src = os.path.join(work, "program.nano")
+    with open(src, "w") as f:
+        f.write(open(p).read())
+    r = _observe((plain.root, plain.exe("nano_vm"), plain.exe("nano_virt"), src, work, 10))
+    if r["emit"][0] != 0 or "file" not in r:
+        print("program no longer compiles:", r["emit"][2][-500:].decode(errors="replace"))
+        return 2
+    norm = three_ways(r)
+    print(describe(norm))
+    sig = disagreement(norm)
+    if sig:
+        print("VIOLATION property=C10 replay=%s  # %s" % (path, sig))
+        return 1
+    print("C10 replay: the three ways agree")
+    return 0
+
+
+def probe_info(probe, files):
+    """file -> dict of table sizes read back from the emitted module"""
+    info = {}
+    for i in range(0, len(files), 200):
+        rc, out, err = common.run([probe, "info"] + files[i:i + 200], timeout=1800)
+        if rc != 0:
+            raise common.HarnessError("probe info failed rc=%s %s" % (rc, err[-500:]))
+        for l in out.decode(errors="replace").splitlines():
+            if l.startswith("INFO "):
+                parts = l.split()
+                info[parts[1]] = dict(x.split("=") for x in parts[2:])
+    return info
+
+
+def calibrate(plain, probe, work, gen, what):
+    """c0, a, b with  size(k, j) = c0 + a*k + b*j  for the generator, measured on the tree under test"""
+    pts = [(0, 0), (1, 0), (0, 1), (5, 3)]
+    files = []
+    for k, j in pts:
+        src = os.path.join(work, "cal_%d_%d.nano" % (k, j))
+        with open(src, "w") as f:
+            f.write(gen(k, j))
+        nvm = src[:-5] + ".nvm"
+        rc, _o, e = common.run([plain.exe("nano_virt"), src, "--emit-nvm", "-o", nvm], timeout=120, cwd=plain.root)
+        if rc != 0:
+            raise common.HarnessError("calibration program does not compile: %s" % e[-400:])
+        files.append(nvm)
+    inf = probe_info(probe, files)
+    v = [int(inf[f][what]) for f in files]
+    c0, a, b = v[0], v[1] - v[0], v[2] - v[0]
+    if a <= 0 or b < 0 or v[3] != c0 + 5 * a + 3 * b:
+        raise common.HarnessError("size calibration is not linear: %s" % v)
+    return c0, a, b
+
+
+def solve(target, c0, a, b):
+    """(k, j) with c0 + a*k + b*j == target and the smallest j, or None"""
+    r = target - c0
+    if r < 0:
+        return None
+    if b == 0:
+        return (r // a, 0) if r % a == 0 else None
+    for j in range(0, a + 1):
+        if r - b * j >= 0 and (r - b * j) % a == 0:
+            return ((r - b * j) // a, j)
+    return None
+
+
+def size_programs(tier, plain, probe, work):
+    """list of (family, name, text, meta); meta carries the intended table size"""
+    cal = os.path.join(work, "cal")
+    os.makedirs(cal, exist_ok=True)
+    progs = []
+    # function table
+    for shape in FN_SHAPES:
+        for n in (1, 2, 3, 31, 32, 33, 255, 256, 257, 510, 511, 512, 513):
+            t = gen_functions(n, shape)
+            if t:
+                progs.append(("fn", "fn_%s_%d" % (shape, n), t, {"dim": "functions", "user_functions": n}))
+    # beyond the 512 top-level definitions the compiler accepts: nested functions are table entries too
+    for total in pow2_around(9, 12 if tier == "quick" else 15):      # 65537 entries: the parser gives up on the source
+        if total > 512:
+            for shape in ("plain", "glob"):
+                progs.append(("fn", "fn_nested_%s_%d" % (shape, total), gen_nested(total, shape), {"dim": "functions", "target": total}))
+    # pooled strings: names and literals share the pool
+    c0, a, _b = calibrate(plain, probe, cal, lambda k, j: gen_strings(k + 4 + j), "strings")
+    if a != 1:
+        raise common.HarnessError("one literal does not add one pooled string (%d)" % a)
+    c0 -= 4
+    for t in pow2_around(2, 13 if tier == "quick" else 16):
+        if t - c0 >= 1:
+            progs.append(("str", "str_%d" % t, gen_strings(t - c0), {"dim": "strings", "target": t}))
+    # one long literal
+    for L in [0, 1, 255, 256, 257, 65535, 65536, 65537] + ([1 << 20, (1 << 20) + 1] if tier != "quick" else []):
+        progs.append(("len", "len_%d" % L, gen_longstring(L), {"dim": "maxstr", "target": L}))
+    # code bytes
+    targets = pow2_around(15, 17) + (pow2_around(20, 20) if tier != "quick" else [])
+    for shape, what in (("bigmain", "code"), ("split", "entry_off"), ("loop", "code")):
+        c0, a, b = calibrate(plain, probe, cal, lambda k, j, s=shape: gen_code(s, k, j), what)
+        for t in targets:
+            kj = solve(t, c0, a, b)
+            if kj is None:      # not reachable exactly with this tree's statement sizes: the nearest from below
+                kj = ((t - c0) // a, 0)
+            progs.append(("code", "code_%s_%d" % (shape, t), gen_code(shape, kj[0], kj[1]), {"dim": what, "target": t}))
+    # imports
+    for n in (1, 2, 31, 32, 33, 255, 256, 257, 300):
+        for pos in ("first", "last"):
+            progs.append(("imp", "imp_%d_%s" % (n, pos), gen_imports(n, pos),
+                          {"dim": "imports", "target": n} if n <= 256 else {"dim": "imports", "declared": n}))    # the compiler keeps 256 externs
+    return progs
+
+
 def run(tier):
     rep = common.Report("C10", tier)
+    rep.set_deadline(170 if tier == "quick" else 1700)
     tree = common.build_tree("asan")
     plain = common.build_tree("plain")      # wrapper binaries are built by the plain toolchain, as a user would
     probe = tree.build_probe(os.path.join(common.VERIF, "vf/probes/nvm_probe.c"), "nvm_probe")
+    sprobe = tree.build_probe(os.path.join(common.VERIF, "vf/probes/c10_probe.c"), "c10_probe")
+    # the same probe without the sanitizer: only reads table sizes back from files (can be 65537 strings)
+    iprobe = plain.build_probe(os.path.join(common.VERIF, "vf/probes/c10_probe.c"), "c10_probe")
     work = os.path.join(common.scratch(), "c10")
     os.makedirs(work, exist_ok=True)
 
-    # ---------------- (b) structural product
-    rc, out, err = common.run([probe, "c10b"], timeout=1800)
-    out = out.decode(errors="replace")
-    stat = [l for l in out.splitlines() if l.startswith("STAT")]
-    if rc != 0 or not stat:
-        rep.violation("c10b-crash", {"stdout.txt": out[-20000:], "stderr.txt": err.decode(errors="replace")[-20000:]},
-                      "structural round-trip product aborted rc=%s (sanitizer report in nvm_serialize/nvm_deserialize)" % rc)
-        nmods = 0
-    else:
-        kv = dict(x.split("=") for x in stat[0].split()[1:])
-        nmods = int(kv["modules"])
-    fl = [l for l in out.splitlines() if l.startswith("FAIL")]
-    groups = {}
-    for l in fl:
-        groups.setdefault(l.split(" : ")[-1].split("(")[0][:40], []).append(l)
-    for k, ls in groups.items():
-        rep.violation("c10b:" + k, {"fails.txt": "\n".join(ls) + "\n"}, "structural round trip: %s e.g. %s" % (k, ls[0]))
-    rep.count("states", nmods)
-    rep.count("transitions", nmods * 3)
-    rep.coverage["api_built_modules"] = nmods
-    rep.sample({"api_module": "strings=['a',''] functions=[profile 2 (arity 0x1234, offset 0x12345678, ...)] imports=[3 params] debug=2 code=4097 flags=5 entry=0xFFFFFFFF"})
+    # ---------------- (b) structural product and (c1) API-built size boundaries: two single-threaded probe runs,
+    # started now and collected after the process pool below has done the compiler-side families
+    bg = {}
+
+    def _bg(key, cmd, timeout):
+        bg[key] = common.run(cmd, timeout=timeout)
+    threads = [threading.Thread(target=_bg, args=("c10b", [probe, "c10b"], 1800)),
+               threading.Thread(target=_bg, args=("sizes", [sprobe, "sizes", tier], 3000))]
+    for t in threads:
+        t.start()
 
     # ---------------- (a) compiler-produced modules
     srcs = corpus.hand_programs() + sorted(glob.glob(os.path.join(common.VERIF, "vf/corpus_vm/*.nano")))
@@ -102,42 +545,194 @@ def run(tier):
                 rep.count("enumerator_batches_refused_by_front_end")     # a batch holding a case of C02's known finding
                 continue
             raise common.HarnessError("corpus program %s does not compile: %s" % (name, r["emit"][2][-500:]))
-        ref = (r["run"][0], r["run"][1])
-        obs = {"--run": ref, "nano_vm file": (r["file"][0], r["file"][1])}
-        if "wrap" in r:
-            obs["wrapper"] = (r["wrap"][0], r["wrap"][1])
-        else:
-            obs["wrapper"] = ("wrapper build failed rc=%s" % r["wrapbuild"][0], r["wrapbuild"][2][-300:])
         # exit statuses are compared modulo 256 (what a process can report)
-        norm = {k: ((v[0] % 256) if isinstance(v[0], int) and v[0] >= 0 else v[0], v[1]) for k, v in obs.items()}
+        norm = three_ways(r)
         rep.count("traces_validated_against_impl", len(norm))
         rep.count("transitions", len(norm))
-        if len(set(norm.values())) != 1:
-            txt = "".join("%s: exit=%s stdout=%r\n" % (k, v[0], v[1][:2000]) for k, v in norm.items())
-            rep.violation("c10a:" + name, {"program.nano": open(r["src"]).read(), "observations.txt": txt},
-                          "%s: run / file / wrapper disagree: %s" % (name, {k: v[0] for k, v in norm.items()}),
-                          "# build /repo; then compare: bin/nano_virt program.nano --run ; bin/nano_virt program.nano --emit-nvm -o p.nvm && bin/nano_vm p.nvm ; bin/nano_virt program.nano -o w && ./w")
+        sig = disagreement(norm)
+        if sig:
+            rep.violation("c10a:" + name, {"program.nano": open(r["src"]).read(), "observations.txt": describe(norm)},
+                          "%s: run / file / wrapper disagree: %s (%s)" % (name, {k: v[0] for k, v in norm.items()}, sig), REPLAY_SH)
         nvms.append(r["nvm"])
-        rep.sample({"program": name, "exit": norm["--run"][0], "stdout_bytes": len(ref[1])})
+        rep.sample({"program": name, "exit": norm["--run"][0], "stdout_bytes": len(norm["--run"][1])})
+
+    # ---------------- (c2) generated size-boundary programs through the real compiler
+    sp = size_programs(tier, plain, iprobe, work)
+    size_results = []
+    for fam in ("fn", "str", "len", "code", "imp"):
+        part = [(n, t, m) for f, n, t, m in sp if f == fam]
+        # the 65535..65537-string programs take ~10 s per step on an idle machine
+        size_results += run_generated(rep, plain, work, "size-" + fam, part, tmul=(10 if tier != "quick" else 2))
+    ok = [r for r in size_results if not r.get("refused")]
+    inf = probe_info(iprobe, [r["nvm"] for r in ok])
+    achieved = {"functions": set(), "strings": set(), "maxstr": set(), "code": set(), "entry_off": set(), "imports": set()}
+    missed = []
+    for r in ok:
+        i = inf.get(r["nvm"])
+        if not i or i.get("load") != "ok":
+            continue        # a module its own loader refuses: already a three-way disagreement above
+        for k in achieved:
+            achieved[k].add(int(i[k]))
+        m = r["meta"]
+        if "target" in m and int(i[m["dim"]]) != m["target"]:
+            missed.append((r["name"], m["dim"], m["target"], int(i[m["dim"]])))
+        r["info"] = i
+    for k, vs in achieved.items():
+        rep.coverage["compiler_built_%s_sizes" % k] = ",".join(str(x) for x in sorted(vs)[-40:])
+    rep.coverage["size_programs"] = len(sp)
+    rep.coverage["size_programs_accepted"] = len(ok)
+    rep.coverage["size_targets_missed"] = len(missed)
+    rep.coverage["size_targets_missed_list"] = "; ".join("%s: %s=%d wanted %d" % (n, d, got, t) for n, d, t, got in missed[:12])
+    nvms += [r["nvm"] for r in ok]
+    # vacuity: the boundaries this family exists for were really reached on this tree
+    need = {"functions": (1, 2, 256, 257, 512, 513), "strings": (256, 257, 4096, 4097), "maxstr": (255, 256, 65535, 65536),
+            "imports": (1, 32, 33, 256)}
+    if tier != "quick":
+        need["strings"] += (65535, 65536, 65537)
+    for k, vals in need.items():
+        lack = [v for v in vals if v not in achieved[k]]
+        if lack and not rep.violations:
+            raise common.HarnessError("size family did not reach %s = %s (reached %s)" % (k, lack, sorted(achieved[k])[-12:]))
+    if not rep.violations:
+        if not any(v >= 65536 for v in achieved["code"]) or not any(v >= 65536 for v in achieved["entry_off"]):
+            raise common.HarnessError("no generated module has code / an entry offset beyond 64 KiB")
+        if len(missed) > len(sp) // 4:
+            raise common.HarnessError("size calibration missed %d targets, e.g. %s" % (len(missed), missed[:3]))
+        if len(set((r["norm"]["--run"][0], r["norm"]["--run"][1]) for r in ok)) < len(ok) // 3:
+            raise common.HarnessError("size family: outcomes are nearly all identical")
+    for r in ok[:200:25]:
+        rep.sample({"size_program": r["name"], "tables": {k: r["info"][k] for k in ("strings", "functions", "code", "imports", "maxstr")} if "info" in r else None,
+                    "exit": r["norm"]["--run"][0]}, cap=14)
+
+    # ---------------- (d) runtime errors: exit status, output and stderr class three ways
+    kinds, wheres, stacks, outs = trap_alphabet(tier)
+    tp = []
+    skipped = 0
+    for k in kinds:
+        for w in wheres:
+            for s in stacks:
+                for o in outs:
+                    t = gen_trap(k, w, s, o)
+                    if t is None:
+                        skipped += 1
+                        continue
+                    tp.append(("trap_%s_%s_%s_%s" % (k, w, s, o), t, {"kind": k, "where": w, "stack": s, "out": o}))
+    trap_results = run_generated(rep, plain, work, "trap", tp, tmul=2)
+    tok = [r for r in trap_results if not r.get("refused")]
+    rep.coverage["trap_programs"] = len(tp)
+    rep.coverage["trap_programs_accepted"] = len(tok)
+    rep.coverage["trap_combinations_without_expression_form"] = skipped
+    failing = [r for r in tok if r["norm"]["--run"][2][0] == "runtime error"]
+    rep.coverage["trap_programs_ending_in_runtime_error"] = len(failing)
+    msgs = {}
+    for r in failing:
+        msgs.setdefault(r["norm"]["--run"][2][1], 0)
+        msgs[r["norm"]["--run"][2][1]] += 1
+    rep.coverage["trap_distinct_vm_messages"] = len(msgs)
+    expect = len(kinds) * len(wheres) * len(stacks) * len(outs) - skipped
+    if len(tp) != expect or len(tp) < (400 if tier == "quick" else 1500):
+        raise common.HarnessError("trap family smaller than expected: %d" % len(tp))
+    if not rep.violations:
+        if len(tok) < len(tp):
+            bad = [r for r in trap_results if r.get("refused")][0]
+            raise common.HarnessError("generated trap program refused by the front end: %s: %s" % (bad["name"], bad["emit"][2][-400:]))
+        nctl = len([1 for r in tok if r["meta"]["kind"] == "control"])
+        if len(failing) != len(tok) - nctl:
+            odd = [r["name"] for r in tok if (r["meta"]["kind"] == "control") == (r["norm"]["--run"][2][0] == "runtime error")][:5]
+            raise common.HarnessError("trap family: %d of %d non-control programs end in a runtime error (e.g. %s)" % (len(failing), len(tok) - nctl, odd))
+        if len(msgs) < 5:
+            raise common.HarnessError("trap family: only %d distinct VM messages: %s" % (len(msgs), sorted(msgs)))
+        if len(set((r["norm"]["--run"][0], r["norm"]["--run"][1]) for r in tok)) < 20:
+            raise common.HarnessError("trap family: outcomes are nearly all identical")
+    for r in tok[:len(tok):max(1, len(tok) // 6)]:
+        rep.sample({"trap_program": r["name"], "exit": r["norm"]["--run"][0], "stderr_class": "/".join(r["norm"]["--run"][2]),
+                    "stdout_bytes": len(r["norm"]["--run"][1])}, cap=22)
+
+    # ---------------- file round trip of every compiler-produced module
     rmods, _sk = corpus.repo_modules(tree, os.path.join(work, "rmods"))
     allm = nvms + [m for _s, m in rmods]
-    rc, out, err = common.run([probe, "rt"] + allm, timeout=900)
-    out = out.decode(errors="replace")
-    if rc != 0:
-        rep.violation("rt-crash", {"stdout.txt": out[-20000:], "stderr.txt": err.decode(errors="replace")[-20000:]}, "file round trip aborted rc=%s" % rc)
-    for l in out.splitlines():
-        if l.startswith("FAIL"):
-            f = l.split()[2]
-            files = {"fail.txt": l + "\n"}
-            if os.path.exists(f):
+    for i in range(0, len(allm), 300):
+        chunk = allm[i:i + 300]
+        rc, out, err = common.run([sprobe, "rt"] + chunk, timeout=1800)
+        out = out.decode(errors="replace")
+        if rc != 0:
+            rep.violation("rt-crash", {"stdout.txt": out[-20000:], "stderr.txt": err.decode(errors="replace")[-20000:]}, "file round trip aborted rc=%s" % rc)
+        fails = {}
+        for l in out.splitlines():
+            if l.startswith("FAIL"):
+                fails.setdefault(l.split()[1], []).append(l)
+        for cls, ls in fails.items():
+            f = ls[0].split()[2]
+            files = {"fails.txt": "\n".join(ls) + "\n"}
+            if os.path.exists(f) and os.path.getsize(f) < 4000000:
                 files["module.nvm"] = open(f, "rb").read()
-            rep.violation("rt:" + os.path.basename(f), files, l)
+            rep.violation("rt:" + cls + ":" + os.path.basename(f), files, "%s (%d module(s))" % (ls[0], len(ls)))
     rep.count("states", len(allm))
     rep.count("transitions", len(allm) * 3)
     rep.coverage["compiler_modules_roundtripped"] = len(allm)
-    rep.coverage["programs_run_three_ways"] = len(srcs)
-    rep.assumptions += ["exit statuses compared modulo 256", "observations are stdout bytes and exit status (the property's 'output' and 'exit status')",
-                        "structural alphabet: 6 string sets x function lists (<=3 of 4 profiles) x import lists (<=2 of 3 profiles) x 0-2 debug entries x 4 code lengths x 8 flag values x 3 entry points"]
+    rep.coverage["programs_run_three_ways"] = len(srcs) + len(ok) + len(tok)
+
+    # ---------------- collect (b) and (c1)
+    for t in threads:
+        t.join()
+    rc, out, err = bg["c10b"]
+    out = out.decode(errors="replace")
+    stat = [l for l in out.splitlines() if l.startswith("STAT")]
+    if rc != 0 or not stat:
+        rep.violation("c10b-crash", {"stdout.txt": out[-20000:], "stderr.txt": err.decode(errors="replace")[-20000:]},
+                      "structural round-trip product aborted rc=%s (sanitizer report in nvm_serialize/nvm_deserialize)" % rc)
+        nmods = 0
+    else:
+        kv = dict(x.split("=") for x in stat[0].split()[1:])
+        nmods = int(kv["modules"])
+    fl = [l for l in out.splitlines() if l.startswith("FAIL")]
+    groups = {}
+    for l in fl:
+        groups.setdefault(l.split(" : ")[-1].split("(")[0][:40], []).append(l)
+    for k, ls in groups.items():
+        rep.violation("c10b:" + k, {"fails.txt": "\n".join(ls) + "\n"}, "structural round trip: %s e.g. %s" % (k, ls[0]))
+    rep.count("states", nmods)
+    rep.count("transitions", nmods * 3)
+    rep.coverage["api_built_modules"] = nmods
+    rep.sample({"api_module": "strings=['a',''] functions=[profile 2 (arity 0x1234, offset 0x12345678, ...)] imports=[3 params] debug=2 code=4097 flags=5 entry=0xFFFFFFFF"})
+
+    rc, out, err = bg["sizes"]
+    out = out.decode(errors="replace")
+    stat = [l for l in out.splitlines() if l.startswith("STAT")]
+    nsz = 0
+    if rc != 0 or not stat:
+        rep.violation("c10size-crash", {"stdout.txt": out[-20000:], "stderr.txt": err.decode(errors="replace")[-20000:]},
+                      "size-boundary modules built through the API: probe aborted rc=%s (sanitizer report / crash in the nvm_* builder, writer or reader)" % rc)
+    else:
+        kv = dict(x.split("=") for x in stat[0].split()[1:])
+        nsz = int(kv["modules"])
+        for k in sorted(kv):
+            if k.startswith("sweep_") or k in ("product", "beyond_capacity_constants"):
+                rep.coverage["api_size_" + k] = int(kv[k])
+        if nsz < (1500 if tier == "quick" else 9000) or int(kv["beyond_capacity_constants"]) < nsz // 3:
+            raise common.HarnessError("vacuous size-boundary enumeration: %s" % stat[0])
+    groups = {}
+    for l in out.splitlines():
+        if l.startswith("FAIL"):
+            groups.setdefault(l.split(" : ")[-1].split("(")[0][:40], []).append(l)
+    for k, ls in groups.items():
+        rep.violation("c10size:" + k, {"fails.txt": "\n".join(ls) + "\n"},
+                      "size-boundary module built through the API: %s (%d shown) e.g. %s" % (k, len(ls), ls[0]))
+    rep.count("states", nsz)
+    rep.count("transitions", nsz * 3)
+    rep.coverage["api_size_boundary_modules"] = nsz
+    rep.sample({"api_size_module": "sweep strings=4097 (others: 3 strings / 2 functions / 5 code bytes / 1 import / 1 debug entry)"}, cap=24)
+    rep.sample({"api_size_module": "product strings=4097 longstr=65536 fns=513 code=65537 imps=4097 lastparams=257 dbg=513"}, cap=24)
+
+    rep.assumptions += [
+        "exit statuses compared modulo 256",
+        "observations are stdout bytes, exit status (the property's 'output' and 'exit status') and the stderr CLASS: no runtime error / runtime error + the VM's message / module refused; other stderr text (compiler warnings of --run, the differing 'Runtime error: <kind>' banner of nano_vm) is not compared",
+        "structural alphabet: 6 string sets x function lists (<=3 of 4 profiles) x import lists (<=2 of 3 profiles) x 0-2 debug entries x 4 code lengths x 8 flag values x 3 entry points",
+        "size boundaries through the API: every table over {0} u {2^k-1,2^k,2^k+1} (bounds per tier in the docstring) at two base settings of the others + full product of a reduced list; function/import/debug records carry index-dependent field values",
+        "size boundaries through the compiler: the compiler accepts at most 512 user functions (513/514 table entries with __init__ / synthetic main), 256 externs and emits no debug entries - larger function / import / debug tables exist only in the API-built part; code sizes are hit exactly by calibrating two statement sizes on the tree under test",
+        "runtime errors: product %d kinds x %d places x %d frame states x %d output prefixes (combinations of a pending operand with a statement-only error form do not exist); errors reachable from source programs only (no hostile modules: C13)" % (len(kinds), len(wheres), len(stacks), len(outs)),
+        "a disagreement is reported only after the program, re-run alone twice with 10x time limits, shows the same disagreement both times",
+    ]
     if nmods and nmods < 1000:
         raise common.HarnessError("vacuous structural product")
     return rep.finish()
